@@ -4,6 +4,7 @@ import (
 	"fmt"
 	"go/token"
 	"go/types"
+	"sort"
 	"strings"
 
 	"golang.org/x/tools/go/ssa"
@@ -143,6 +144,67 @@ func dumpIndexSites(c *Ctx) {
 				}
 			}
 			fmt.Printf("INDEX %-8s %s %s idx=%s\n", kind, shortFn(f), c.W.Pos(call.Pos()), idx)
+		}
+	}
+}
+
+// dumpPanicOps: inventory of operations that can panic, under Eval and under Compile.
+func dumpPanicOps(c *Ctx) {
+	for _, rc := range []struct {
+		name  string
+		reach *Reach
+	}{{"Eval", c.REval}, {"Compile", c.RCompile}} {
+		counts := map[string]int{}
+		var lines []string
+		for _, f := range srcFuncsIn(rc.reach) {
+			if !c.Lib[fnPkg(f)] {
+				continue
+			}
+			for _, ins := range instrsIn(f) {
+				switch x := ins.(type) {
+				case *ssa.TypeAssert:
+					if !x.CommaOk {
+						counts["typeassert"]++
+						lines = append(lines, fmt.Sprintf("  typeassert %s %s: %s.(%s)", c.W.Pos(x.Pos()), shortFn(f), x.X.Name(), types.TypeString(x.AssertedType, nil)))
+					}
+				case *ssa.Call:
+					if callee := x.Call.StaticCallee(); callee != nil && callee.Signature.Recv() != nil && calleePkgPath(callee) == "reflect" {
+						counts["reflect."+callee.Name()]++
+					}
+				case *ssa.MapUpdate:
+					counts["mapupdate"]++
+				case *ssa.UnOp:
+					if x.Op == token.MUL {
+						counts["deref"]++
+					}
+				case *ssa.Convert:
+					// slice to array pointer conversions panic; none expected
+				case *ssa.BinOp:
+					if (x.Op == token.QUO || x.Op == token.REM) && isIntType(x.X.Type()) {
+						counts["intdiv"]++
+					}
+					if x.Op == token.SHL || x.Op == token.SHR {
+						counts["shift"]++
+					}
+				case *ssa.MakeSlice, *ssa.MakeChan:
+					counts["make"]++
+				case *ssa.SliceToArrayPointer:
+					counts["slice2array"]++
+				}
+			}
+		}
+		fmt.Println("==", rc.name)
+		var ks []string
+		for k := range counts {
+			ks = append(ks, k)
+		}
+		sort.Strings(ks)
+		for _, k := range ks {
+			fmt.Printf("  %-28s %d\n", k, counts[k])
+		}
+		sort.Strings(lines)
+		for _, l := range lines {
+			fmt.Println(l)
 		}
 	}
 }
